@@ -305,7 +305,7 @@ class TestNode(Runnable):
         """ID-s of workers that produced the shared results."""
         workers = set()
         for result in self.shared_results:
-            if result["status"] != "PASS":
+            if result["status"] not in ["PASS", "WARN"]:
                 continue
             worker_ids = [
                 w.id for s in TestSwarm.run_swarms.values() for w in s.workers
